@@ -9,6 +9,11 @@
 // base are compared with the Lean model.  The oracle (implementation only) keeps a reference
 // Go map per base and checks the map laws directly.
 //
+// Round 6 (accepts.go, anc.go, readers.go, dupmembers.go): the oracle also judges the ERROR of every
+// write ("an operation the reference map accepts must not fail on any backend"), the ancestor
+// family (DeleteAll at every ancestor level, then Put again), reader handles (ops O / F: what a
+// ReadObjectCloser yields after later writes) and archives with repeated / colliding members.
+//
 // Archive cases (model: lean/BufModel/Archive.lean):
 //   arc: memory bases + composite, real Tar/Zip → the entries of the produced bytes are listed with
 //        the archive/tar / archive/zip readers and compared with the model's tarOf; the bytes are
@@ -207,6 +212,8 @@ type op struct {
 	content string // token
 	how     string // for C: copy|tar|zip ; for p: atomic?
 	tmp     string // T / R: base name of the temp file the in-flight atomic put shows on disk
+	n       int    // O: bytes read right after the open; F: index of the reader handle
+	encP    bool   // reader family: an atomic put is encoded as "P" (the model detaches open disk readers)
 }
 
 func (o op) enc() string {
@@ -214,7 +221,14 @@ func (o op) enc() string {
 	case 'g', 's', 'w':
 		return string(o.kind) + ":" + hx.Enc(o.path)
 	case 'p':
+		if o.encP && o.how == "atomic" {
+			return "P:" + strconv.Itoa(o.base) + ":" + hx.Enc(o.path) + ":" + o.content
+		}
 		return "p:" + strconv.Itoa(o.base) + ":" + hx.Enc(o.path) + ":" + o.content
+	case 'O':
+		return "O:" + strconv.Itoa(o.base) + ":" + hx.Enc(o.path) + ":" + strconv.Itoa(o.n)
+	case 'F':
+		return "F:" + strconv.Itoa(o.n)
 	case 'd', 'D':
 		return string(o.kind) + ":" + strconv.Itoa(o.base) + ":" + hx.Enc(o.path)
 	case 'T', 'R':
@@ -238,6 +252,10 @@ func (o op) String() string {
 		return fmt.Sprintf("put[atomic, writer left open] base%d %q %s (temp file %q)", o.base, o.path, o.content, o.tmp)
 	case 'R':
 		return fmt.Sprintf("close the open writer of base%d %q", o.base, o.path)
+	case 'O':
+		return fmt.Sprintf("open reader #? on base%d %q and read %d bytes", o.base, o.path, o.n)
+	case 'F':
+		return fmt.Sprintf("read reader #%d to the end", o.n)
 	default:
 		return fmt.Sprintf("%c %q", o.kind, o.path)
 	}
@@ -273,6 +291,8 @@ type caseCfg struct {
 	script    []op
 	onlyIdx   int // the --only index that regenerates this case
 	tag       string
+	mix       string // "" = the default op mix; "anc" = ancestor family (anc.go); "rd" = reader family (readers.go)
+	writeView string // scripts: writes to paths below this directory go through MapReadWriteBucket(base, MapOnPrefix(writeView))
 }
 
 func runCase(run *hx.Run, idx int, r *hx.Rand, tmpRoot string) {
@@ -351,6 +371,33 @@ func runCaseCfg(run *hx.Run, idx int, r *hx.Rand, tmpRoot string, cfg caseCfg) {
 			pend.w.Close()
 		}
 	}()
+	// The reference TREE of a disk base (oracle only): the directories that exist according to
+	// the history (ancestors of every accepted put; removed by DeleteAll / Delete of an empty
+	// directory).  With the reference map it decides which writes a backend MUST accept: see
+	// accepts.go.
+	tr := newRefTree(nb, disk, ref)
+	// writeTarget: the bucket and path a write is issued on.  With cfg.writeView = v a write below v
+	// goes through storage.MapReadWriteBucket(base, MapOnPrefix(v)) with the path relative to v —
+	// by the mapper laws the SAME base operation, so the protocol line (and the model) is unchanged.
+	writeTarget := func(base int, path string, prefixOp bool) (storage.ReadWriteBucket, string) {
+		if cfg.writeView != "" {
+			if n, err := normalpath.NormalizeAndValidate(path); err == nil && under(cfg.writeView, n) && (n != cfg.writeView || prefixOp) {
+				rel, rerr := normalpath.Rel(cfg.writeView, n)
+				if rerr == nil {
+					run.Count("write-through-mapped-view")
+					return storage.MapReadWriteBucket(bases[base], storage.MapOnPrefix(cfg.writeView)), rel
+				}
+			}
+		}
+		return bases[base], path
+	}
+	// open reader handles (ops O / F, readers.go)
+	var handles []*rhandle
+	defer func() {
+		for _, h := range handles {
+			h.close()
+		}
+	}()
 	defer func() {
 		if p := recover(); p != nil {
 			fail("harness-panic", fmt.Sprint(p))
@@ -358,10 +405,16 @@ func runCaseCfg(run *hx.Run, idx int, r *hx.Rand, tmpRoot string, cfg caseCfg) {
 	}()
 	// a few initial puts so reads see something
 	nOps := 6 + r.Intn(14)
+	switch cfg.mix {
+	case "anc":
+		nOps = 10 + r.Intn(31) // long histories over few paths: ancestors repeat
+	case "rd":
+		nOps = 10 + r.Intn(21)
+	}
 	if cfg.script != nil {
 		nOps = len(cfg.script)
 	}
-	for i := 0; i < nOps || pend != nil; i++ {
+	for i := 0; i < nOps || pend != nil || (cfg.script == nil && firstOpen(handles) >= 0); i++ {
 		var o op
 		k := r.Intn(20)
 		if pend == nil && cfg.script == nil && i >= 3 && i+3 < nOps && r.Chance(1, 9) {
@@ -402,6 +455,17 @@ func runCaseCfg(run *hx.Run, idx int, r *hx.Rand, tmpRoot string, cfg caseCfg) {
 			if o.kind == 'w' && r.Bool() {
 				o.path = normalpath.Dir(o.path)
 			}
+		case cfg.mix == "anc":
+			o = genAncOp(r, nb, i, pend != nil)
+			if o.kind == 'C' && e.uses(o.base) {
+				run.Count("skip:copy-onto-source")
+				continue
+			}
+		case cfg.mix == "rd" && i >= nOps:
+			// the history is over: every reader still open is read to the end
+			o = op{kind: 'F', n: firstOpen(handles)}
+		case cfg.mix == "rd":
+			o = genReaderOp(r, nb, i, pend != nil, handles, ref)
 		case k < 7 || i < 3:
 			o = op{kind: 'p', base: r.Intn(nb), path: spell(r, hx.Pick(r, pool)), content: "C" + strconv.Itoa(i), how: "plain"}
 			if r.Chance(1, 8) {
@@ -475,6 +539,14 @@ func runCaseCfg(run *hx.Run, idx int, r *hx.Rand, tmpRoot string, cfg caseCfg) {
 					pend.reads = 0
 				}
 			}
+			if n, verr := normalpath.NormalizeAndValidate(o.path); verr == nil && n != "." {
+				run.Eval()
+				if pend != nil {
+					tr.addAncestors(o.base, n)
+				} else if tr.acceptsBegin(o.base, n) {
+					fail(tr.rejectClass(o.base, n), fmt.Sprintf("%s is rejected (%s) although the reference map accepts it: no ancestor of %q is an object of base%d (disk=%v, objects %v)", o.String(), res, n, o.base, disk[o.base], keys(ref[o.base])))
+				}
+			}
 		case 'R':
 			if pend == nil {
 				continue
@@ -482,9 +554,13 @@ func runCaseCfg(run *hx.Run, idx int, r *hx.Rand, tmpRoot string, cfg caseCfg) {
 			o.base, o.path, o.content, o.tmp = pend.base, pend.path, pend.content, pend.tmpName
 			err := pend.w.Close()
 			res = bk.ErrClass(err)
+			n, _ := normalpath.NormalizeAndValidate(o.path)
+			detachReaders(handles, disk, ref, o.base, func(k string) bool { return k == n || (pend.tmpKey != "" && k == pend.tmpKey) })
 			if err == nil {
-				n, _ := normalpath.NormalizeAndValidate(o.path)
 				ref[o.base][n] = canonContent(materialize(o.content))
+			} else if tr.acceptsClose(o.base, n) {
+				run.Eval()
+				fail(tr.rejectClass(o.base, n), fmt.Sprintf("%s fails (%s) although the reference map accepts the put: %q is not a directory of base%d (disk=%v)", o.String(), res, n, o.base, disk[o.base]))
 			}
 			pend = nil
 		case 'p':
@@ -492,32 +568,67 @@ func runCaseCfg(run *hx.Run, idx int, r *hx.Rand, tmpRoot string, cfg caseCfg) {
 			if o.how == "atomic" {
 				opts = append(opts, storage.PutWithAtomic())
 			}
-			err := bk.PutString(ctx, bases[o.base], o.path, materialize(o.content), opts...)
+			n, verr := normalpath.NormalizeAndValidate(o.path)
+			expect := verr == nil && n != "." && tr.acceptsPut(o.base, n)
+			wb, wp := writeTarget(o.base, o.path, false)
+			err := bk.PutString(ctx, wb, wp, materialize(o.content), opts...)
 			res = bk.ErrClass(err)
+			run.Eval()
 			if err == nil {
-				n, _ := normalpath.NormalizeAndValidate(o.path)
+				if o.how == "atomic" {
+					detachReaders(handles, disk, ref, o.base, func(k string) bool { return k == n })
+				}
 				ref[o.base][n] = canonContent(materialize(o.content))
+				tr.addAncestors(o.base, n)
+			} else if expect {
+				// the property's own statement: every backend is the SAME map; a write the map accepts
+				// (a valid path that neither lies below an object nor names a directory) is accepted
+				fail(tr.rejectClass(o.base, n), fmt.Sprintf("%s is rejected (%s: %v) although the reference map accepts it: base%d (disk=%v) holds %v and %q is neither below one of them nor a directory", o.String(), res, err, o.base, disk[o.base], keys(ref[o.base]), n))
 			}
 		case 'd':
-			err := bases[o.base].Delete(ctx, o.path)
+			wb, wp := writeTarget(o.base, o.path, false)
+			err := wb.Delete(ctx, wp)
 			res = bk.ErrClass(err)
 			if n, verr := normalpath.NormalizeAndValidate(o.path); verr == nil {
 				_, had := ref[o.base][n]
 				if had != (err == nil) && n != "." && !addressesDir {
 					fail("delete-vs-reference", fmt.Sprintf("delete %q on base%d: object existed=%v but result %s", o.path, o.base, had, res))
 				}
+				if err == nil {
+					detachReaders(handles, disk, ref, o.base, func(k string) bool { return k == n })
+					tr.removeDir(o.base, n)
+				}
 				delete(ref[o.base], n)
 			}
 		case 'D':
-			err := bases[o.base].DeleteAll(ctx, o.path)
+			wb, wp := writeTarget(o.base, o.path, true)
+			err := wb.DeleteAll(ctx, wp)
 			res = bk.ErrClass(err)
 			if n, verr := normalpath.NormalizeAndValidate(o.path); verr == nil && err == nil {
+				detachReaders(handles, disk, ref, o.base, func(k string) bool { return under(n, k) })
 				for p := range ref[o.base] {
 					if under(n, p) {
 						delete(ref[o.base], p)
 					}
 				}
+				tr.deleteAll(o.base, n)
+			} else if verr == nil && tr.acceptsDeleteAll(o.base, n) {
+				run.Eval()
+				fail("backend-op-error-differs", fmt.Sprintf("%s fails (%s: %v) although the reference map accepts it: no ancestor of %q is an object of base%d (disk=%v, objects %v)", o.String(), res, err, n, o.base, disk[o.base], keys(ref[o.base])))
 			}
+		case 'O':
+			var h *rhandle
+			res, h = openReader(run, bases[o.base], disk[o.base], o, ref[o.base])
+			if h != nil {
+				h.id = len(handles)
+				h.shadow = openShadow(r, comp, anyDisk, o.n)
+				handles = append(handles, h)
+			}
+		case 'F':
+			if o.n < 0 || o.n >= len(handles) || handles[o.n].done {
+				continue
+			}
+			res = finishReader(run, handles[o.n], ref, fail)
 		case 'g':
 			c, err := bk.ReadAll(ctx, comp, o.path)
 			if err != nil {
@@ -586,10 +697,21 @@ func runCaseCfg(run *hx.Run, idx int, r *hx.Rand, tmpRoot string, cfg caseCfg) {
 				}
 			}
 		case 'C':
-			cnt, err := doCopy(comp, bases[o.base], o.how, disk[o.base], ref[o.base])
+			cnt, srcBefore, srcErr, err := doCopy(comp, bases[o.base], o.how, disk[o.base], ref[o.base])
 			if err == errSkip {
 				run.Count("skip:copy-disk-conflict")
 				continue
+			}
+			if err != nil && srcErr == nil && tr.acceptsAll(o.base, srcBefore) {
+				run.Eval()
+				fail("copy-fails-although-map-accepts", fmt.Sprintf("%s fails (%v) although walking the source succeeds and base%d (disk=%v, objects %v) accepts every one of its paths %v", o.String(), err, o.base, disk[o.base], keys(ref[o.base]), kvKeys(srcBefore)))
+			}
+			if err == nil {
+				for k := range ref[o.base] {
+					tr.addAncestors(o.base, k)
+				}
+			} else if disk[o.base] {
+				tr.rescan(o.base, diskRoots[o.base])
 			}
 			if err != nil {
 				res = "err" // the three mechanisms meet the first error at different moments
@@ -610,8 +732,16 @@ func runCaseCfg(run *hx.Run, idx int, r *hx.Rand, tmpRoot string, cfg caseCfg) {
 		ops = append(ops, o)
 		results = append(results, res)
 		run.Count("op:" + string(o.kind) + ":" + strings.SplitN(res, ":", 2)[0] + errTag(res))
-		// oracle: every base equals its reference map
+		// oracle: every base equals its reference map.  The comparison is on STATE, so a divergence
+		// persists until the next comparison: after a pure read (g / s / w / O / F) it is made only
+		// every third op (and always while an atomic put is in flight) — a read that corrupted a base
+		// is still caught, at the latest after the next write or by the final dump; this re-walk of
+		// every base (1 MiB objects, disk) is what a history case costs (round 6: budget).
+		pureRead := o.kind == 'g' || o.kind == 's' || o.kind == 'w' || o.kind == 'O' || o.kind == 'F'
 		for i := range bases {
+			if pureRead && pend == nil && len(ops)%3 != 0 {
+				break
+			}
 			kvs, err := bk.WalkAll(ctx, bases[i], "")
 			must(err)
 			got := map[string]string{}
@@ -802,29 +932,27 @@ var errSkip = fmt.Errorf("skip")
 
 // doCopy copies everything readable through comp into target by the chosen mechanism and
 // updates the reference map of the target from a walk of comp taken BEFORE the copy.
-func doCopy(comp storage.ReadBucket, target storage.ReadWriteBucket, how string, targetDisk bool, ref map[string]string) (int, error) {
-	src, werr := bk.WalkAll(ctx, comp, "")
+func doCopy(comp storage.ReadBucket, target storage.ReadWriteBucket, how string, targetDisk bool, ref map[string]string) (cnt int, src []bk.KV, werr error, err error) {
+	src, werr = bk.WalkAll(ctx, comp, "")
 	if werr == bk.ErrRootObject {
-		return 0, errSkip
+		return 0, src, werr, errSkip
 	}
 	if werr == nil && targetDisk {
 		for _, kv := range src {
 			for p := range ref {
 				if p != kv.K && (under(p, kv.K) || under(kv.K, p)) {
-					return 0, errSkip
+					return 0, src, werr, errSkip
 				}
 			}
 		}
 		for i := range src {
 			for j := range src {
 				if i != j && under(src[i].K, src[j].K) {
-					return 0, errSkip
+					return 0, src, werr, errSkip
 				}
 			}
 		}
 	}
-	var cnt int
-	var err error
 	switch how {
 	case "copy":
 		cnt, err = storage.Copy(ctx, comp, target)
@@ -849,9 +977,9 @@ func doCopy(comp storage.ReadBucket, target storage.ReadWriteBucket, how string,
 		}
 	}
 	if err == nil && werr != nil {
-		return cnt, fmt.Errorf("copy succeeded although walking the source fails: %v", werr)
+		return cnt, src, werr, fmt.Errorf("copy succeeded although walking the source fails: %v", werr)
 	}
-	return cnt, err
+	return cnt, src, werr, err
 }
 
 // stripNodes collects every StripReadBucketExternalPaths node of the expression.
@@ -1381,13 +1509,21 @@ func main() {
 	tmpRoot, err := os.MkdirTemp("", "verif-c14-")
 	must(err)
 	defer os.RemoveAll(tmpRoot)
-	n := run.N(1500, 20000) // thorough: 16 ms per history case (1 MiB objects, disk bases, full re-walk after every op); 40000 took 26 min
+	secs := map[string]float64{}
+	t0 := time.Now()
+	lap := func(name string) {
+		secs[name] = float64(time.Since(t0).Milliseconds()) / 1000
+		t0 = time.Now()
+		run.Set("section_seconds", secs)
+	}
+	n := run.N(1500, 19000) // thorough: 16 ms per history case (1 MiB objects, disk bases, full re-walk after every write op); 40000 took 26 min; 20000 -> 19000 in round 6 pays for the new sections (budget 15 min)
 	for i := 0; i < n; i++ {
 		if run.Only >= 0 && run.Only != i {
 			continue
 		}
 		guarded(run, fmt.Sprintf("history case %d", i), func() { os.RemoveAll(tmpRoot) }, func() { runCase(run, i, r.Fork(uint64(i)), tmpRoot) })
 	}
+	lap("history")
 	// union / overlay cases; --only 1000000+i regenerates union case i alone
 	ru := r.Fork(1 << 42)
 	nu := run.N(700, 20000)
@@ -1397,6 +1533,7 @@ func main() {
 		}
 		guarded(run, fmt.Sprintf("union case %d", i), func() { os.RemoveAll(tmpRoot) }, func() { runUnion(run, i, ru.Fork(uint64(i)), tmpRoot) })
 	}
+	lap("union")
 	// name family (names.go): scripted sweep, then random histories over family pools
 	rn := r.Fork(1 << 43)
 	nsAll := nameSweepCount()
@@ -1415,7 +1552,60 @@ func main() {
 		}
 		guarded(run, fmt.Sprintf("name case %d", i), func() { os.RemoveAll(tmpRoot) }, func() { runNames(run, i, rm.Fork(uint64(i)), tmpRoot) })
 	}
+	lap("names")
+	// ancestor family (anc.go): scripted sweep, then random long histories over few nested paths
+	rs := r.Fork(1 << 45)
+	nas := ancSweepCount()
+	for i := 0; i < nas; i++ {
+		if run.Only >= 0 && run.Only != ancSweepBase+i {
+			continue
+		}
+		guarded(run, fmt.Sprintf("ancestor sweep case %d", i), func() { os.RemoveAll(tmpRoot) }, func() { runAncSweep(run, i, rs.Fork(uint64(i)), tmpRoot) })
+	}
+	rr := r.Fork(1 << 46)
+	nar := run.N(350, 900)
+	for i := 0; i < nar; i++ {
+		if run.Only >= 0 && run.Only != ancRandBase+i {
+			continue
+		}
+		guarded(run, fmt.Sprintf("ancestor case %d", i), func() { os.RemoveAll(tmpRoot) }, func() { runAnc(run, i, rr.Fork(uint64(i)), tmpRoot) })
+	}
+	lap("ancestors")
+	// reader isolation (readers.go): scripted sweep, random histories, concurrent rounds
+	rq := r.Fork(1 << 47)
+	nrs := readerSweepCount()
+	for i := 0; i < nrs; i++ {
+		if run.Only >= 0 && run.Only != readerSweepBase+i {
+			continue
+		}
+		guarded(run, fmt.Sprintf("reader sweep case %d", i), func() { os.RemoveAll(tmpRoot) }, func() { runReaderSweep(run, i, rq.Fork(uint64(i)), tmpRoot) })
+	}
+	ro := r.Fork(1 << 48)
+	nro := run.N(300, 900)
+	for i := 0; i < nro; i++ {
+		if run.Only >= 0 && run.Only != readerRandBase+i {
+			continue
+		}
+		guarded(run, fmt.Sprintf("reader case %d", i), func() { os.RemoveAll(tmpRoot) }, func() { runReaders(run, i, ro.Fork(uint64(i)), tmpRoot) })
+	}
+	lap("readers")
+	// duplicate archive members (dupmembers.go)
+	rd := r.Fork(1 << 49)
+	nd := run.N(400, 2000)
+	for i := 0; i < nd; i++ {
+		if run.Only >= 0 && run.Only != dupBase+i {
+			continue
+		}
+		guarded(run, fmt.Sprintf("duplicate member case %d", i), func() { os.RemoveAll(tmpRoot) }, func() { runDup(run, i, rd.Fork(uint64(i)), tmpRoot) })
+	}
+	lap("duplicate-members")
 	if run.Only < 0 {
+		rc := r.Fork(1 << 50)
+		nc := run.N(12, 30)
+		for i := 0; i < nc; i++ {
+			guarded(run, fmt.Sprintf("concurrent reader round %d", i), func() { os.RemoveAll(tmpRoot) }, func() { runReaderConcurrent(run, i, rc.Fork(uint64(i)), tmpRoot) })
+		}
+		lap("readers-concurrent")
 		ra := r.Fork(1 << 40)
 		na := run.N(500, 10000)
 		for i := 0; i < na; i++ {
@@ -1427,5 +1617,6 @@ func main() {
 			guarded(run, fmt.Sprintf("extract case %d", i), func() { os.RemoveAll(tmpRoot) }, func() { runXtr(run, i, rx.Fork(uint64(i))) })
 		}
 	}
+	lap("archives")
 	run.Finish()
 }
